@@ -47,6 +47,17 @@ var synHooks = []string{"sync.syncStore.Append.beforeStore", "sync.setLocalHead.
 
 var errGetter = errors.New("syn: getter fault")
 
+// what a peer request aborted on the other side looks like: an error wrapping context.Canceled although nobody
+// cancelled the Syncer
+var errGetterCanceled = fmt.Errorf("syn: peer request aborted: %w", context.Canceled)
+
+func faultOf(mode string) error {
+	if mode == "error-canceled" {
+		return errGetterCanceled
+	}
+	return errGetter
+}
+
 type synObs struct {
 	accepted    []H // deliveries the verifier accepted
 	badAccepted []string
@@ -87,8 +98,8 @@ func newSynWorld(c *mon.Case, p synP) *synWorld {
 		sw.mmu.Lock()
 		m := sw.mode
 		sw.mmu.Unlock()
-		if m == "error" {
-			return nil, errGetter
+		if strings.HasPrefix(m, "error") {
+			return nil, faultOf(m)
 		}
 		return chain.At(sw.tipNow()), nil
 	}
@@ -96,8 +107,8 @@ func newSynWorld(c *mon.Case, p synP) *synWorld {
 		sw.mmu.Lock()
 		m := sw.mode
 		sw.mmu.Unlock()
-		if m == "error" || h == 0 || h > sw.tipNow() {
-			return nil, errGetter, true
+		if strings.HasPrefix(m, "error") || h == 0 || h > sw.tipNow() {
+			return nil, faultOf(m), true
 		}
 		return chain.At(h), nil, true
 	}
@@ -113,8 +124,8 @@ func newSynWorld(c *mon.Case, p synP) *synWorld {
 		sw.mmu.Lock()
 		m := sw.mode
 		sw.mmu.Unlock()
-		if m == "error" {
-			return nil, errGetter, true
+		if strings.HasPrefix(m, "error") {
+			return nil, faultOf(m), true
 		}
 		out := chain.Range(from.Height()+1, min(to, sw.tipNow()+1))
 		if len(out) == 0 {
@@ -202,6 +213,26 @@ func (sw *synWorld) runSteps(p synP, obs *synObs) {
 		case "getter":
 			sw.setMode(st.Mode)
 			obs.classes = append(obs.classes, "getter:"+st.Mode)
+		case "restart":
+			sctx, sc := context.WithTimeout(context.Background(), time.Minute)
+			err := sw.syn.Stop(sctx)
+			sc()
+			if err != nil {
+				c.Violation("syncer-stop-fails", fmt.Sprint(err), nil)
+				return
+			}
+			sw.started = false
+			if err := sw.start(); err != nil {
+				c.Violation("syncer-restart-fails", fmt.Sprint(err), nil)
+				return
+			}
+			c.Count("syncer_restarts", 1)
+			if h, err := sw.syn.Head(context.Background()); err == nil && sw.chain.Canonical(h) {
+				sw.mmu.Lock()
+				obs.maxVerified = max(obs.maxVerified, h.Height())
+				sw.mmu.Unlock()
+			}
+			obs.classes = append(obs.classes, "restart")
 		case "quiesce":
 			sw.settle()
 			if sw.syn.State().Error != "" {
@@ -434,8 +465,10 @@ func TestC07(t *testing.T) {
 				p.Steps = append(p.Steps, synStep{Op: "sleep", Ms: []int{1, 300, 1000, 2500, 7000, 30000}[rng.Intn(6)]})
 			case x < 18 && nerr < 3: // a finite run of getter errors, then serving again
 				nerr++
-				p.Steps = append(p.Steps, synStep{Op: "getter", Mode: "error"}, synStep{Op: "sleep", Ms: 1500}, synStep{Op: "gossip", Kind: "canonical"}, synStep{Op: "quiesce"},
+				p.Steps = append(p.Steps, synStep{Op: "getter", Mode: []string{"error", "error", "error-canceled"}[rng.Intn(3)]}, synStep{Op: "sleep", Ms: 1500}, synStep{Op: "gossip", Kind: "canonical"}, synStep{Op: "quiesce"},
 					synStep{Op: "getter", Mode: okModes[rng.Intn(len(okModes))]})
+			case x == 18 && i%3 == 0: // Stop and Start of the same Syncer: later heads still have to be synced
+				p.Steps = append(p.Steps, synStep{Op: "quiesce"}, synStep{Op: "restart"}, synStep{Op: "sleep", Ms: 2500}, synStep{Op: "gossip", Kind: "canonical"})
 			default:
 				p.Steps = append(p.Steps, synStep{Op: "getter", Mode: okModes[rng.Intn(len(okModes))]})
 			}
@@ -480,7 +513,7 @@ func c07Run(c *mon.Case, p synP) {
 			// run up to and including the next quiesce step
 			n := 0
 			for n < len(steps) && steps[n].Op != "quiesce" {
-				if steps[n].Op == "getter" && steps[n].Mode == "error" && !errPhase {
+				if steps[n].Op == "getter" && strings.HasPrefix(steps[n].Mode, "error") && !errPhase {
 					sw.settle()
 					errPhase = true
 					loBefore, hiBefore = stored()
@@ -509,13 +542,13 @@ func c07Run(c *mon.Case, p synP) {
 		// further head arriving
 		lastErr := -1
 		for i, st := range p.Steps {
-			if st.Op == "getter" && st.Mode == "error" {
+			if st.Op == "getter" && strings.HasPrefix(st.Mode, "error") {
 				lastErr = i
 			}
 		}
 		servingSince := -1
 		for i, st := range p.Steps {
-			if st.Op == "getter" && st.Mode != "error" && i > lastErr && servingSince < 0 {
+			if st.Op == "getter" && !strings.HasPrefix(st.Mode, "error") && i > lastErr && servingSince < 0 {
 				servingSince = i
 			}
 		}
